@@ -176,6 +176,8 @@ func (c *Ctx) Flush() {
 		switch o.mode {
 		case "exact":
 			agree = model == o.impl
+		case "urltext":
+			agree = modelURLText(model) == o.impl
 		case "normtext":
 			// the model answers "error" for any decode/encode error; otherwise exact ordered text
 			if strings.HasPrefix(model, "error") {
